@@ -499,6 +499,17 @@ func (e *originEngine) fieldLoad(base ssa.Value, fa ssa.Value, viaAddr bool) Ter
 		bt = base.Type()
 	}
 	scopeOwned := !isProtoMsg(bt) && (isScopeNamed(bt) || strings.Contains(fk.owner, ".") && isScopePath(scopePkgs[strings.SplitN(fk.owner, ".", 2)[0]]))
+	// 0. object built by a constructor helper and completed here: the helper's and the caller's stores
+	if root, isCall := e.p.rootOfBase(base).(*ssa.Call); isCall && !scopeOwned {
+		sts := e.p.allocFieldStores(root, fname)
+		for _, s := range sts {
+			out.addAll(e.Of(s.Val))
+		}
+		if len(sts) == 0 {
+			out.add(T("zero", typeKey(fa.Type())))
+		}
+		return out
+	}
 	// 1. local allocation of a message / foreign struct: instance-sensitive stores
 	if al := e.localAlloc(base); al != nil && !scopeOwned {
 		stores := e.p.allocFieldStores(al, fname)
@@ -927,22 +938,79 @@ func (p *Prog) cellStores(a *ssa.Alloc) []*ssa.Store {
 	return out
 }
 
-// allocBases: SSA values that denote (a pointer to) the object allocated at a, inside its function nest:
-// the alloc and its captures, loads of single-assignment cells holding it, and loads of a field of an
-// enclosing local literal into which it was stored (tr.Status, rpc.Header).
-func (p *Prog) allocBases(a *ssa.Alloc) map[ssa.Value]bool {
-	if p.basesMemo == nil {
-		p.basesMemo = map[*ssa.Alloc]map[ssa.Value]bool{}
+// ---- object roots: a local allocation, or a call of a constructor helper ----
+//
+// A constructor helper is an in-scope function whose every return yields one local allocation of it (e.g. a
+// `newRpc()` that builds the common part of an envelope). A call of it denotes a fresh object per call, exactly
+// like a composite literal at the call site; the object's field stores are the helper's plus the caller's.
+
+// ctorAlloc: the allocation a constructor helper returns (nil if f is not one).
+func (p *Prog) ctorAlloc(f *ssa.Function) *ssa.Alloc {
+	if p.ctorMemo == nil {
+		p.ctorMemo = map[*ssa.Function]*ssa.Alloc{}
 	}
-	if b, ok := p.basesMemo[a]; ok {
+	if a, ok := p.ctorMemo[f]; ok {
+		return a
+	}
+	p.ctorMemo[f] = nil
+	if f == nil || !p.inScope[f] || f.Blocks == nil || f.Signature.Results().Len() != 1 {
+		return nil
+	}
+	// only straight-line builders count (a literal factored out of its users); a function with control flow that
+	// happens to return a fresh object — processUnaryRpc building its reply — is a construction site of its own
+	if len(f.Blocks) != 1 {
+		return nil
+	}
+	if _, isPtr := f.Signature.Results().At(0).Type().Underlying().(*types.Pointer); !isPtr {
+		return nil
+	}
+	var found *ssa.Alloc
+	for _, r := range returnsOf(f) {
+		v := p.derefLocal(stripConv(retVals(r)[0]))
+		al, ok := v.(*ssa.Alloc)
+		if !ok || !al.Heap || (found != nil && found != al) {
+			return nil
+		}
+		found = al
+	}
+	p.ctorMemo[f] = found
+	return found
+}
+
+// ctorCall: if v is a call of a constructor helper, the helper's allocation.
+func (p *Prog) ctorCall(v ssa.Value) *ssa.Alloc {
+	if c, ok := v.(*ssa.Call); ok {
+		if sc := c.Call.StaticCallee(); sc != nil {
+			return p.ctorAlloc(sc)
+		}
+	}
+	return nil
+}
+
+// rootAliases: the root and every value that is the same object reference (captures of an alloc).
+func (p *Prog) rootAliases(root ssa.Value) []ssa.Value {
+	if a, ok := root.(*ssa.Alloc); ok {
+		return p.cellAliases(a)
+	}
+	return []ssa.Value{root}
+}
+
+// allocBases: SSA values that denote (a pointer to) the object `root` (a local allocation or a constructor-helper
+// call), inside the function nest: the root and its captures, loads of single-assignment cells holding it, and
+// loads of a field of an enclosing local object into which it was stored (tr.Status, rpc.Header).
+func (p *Prog) allocBases(root ssa.Value) map[ssa.Value]bool {
+	if p.basesMemo == nil {
+		p.basesMemo = map[ssa.Value]map[ssa.Value]bool{}
+	}
+	if b, ok := p.basesMemo[root]; ok {
 		return b
 	}
 	bases := map[ssa.Value]bool{}
-	p.basesMemo[a] = bases
-	for _, al := range p.cellAliases(a) {
+	p.basesMemo[root] = bases
+	for _, al := range p.rootAliases(root) {
 		bases[al] = true
 	}
-	for _, al := range p.cellAliases(a) {
+	for _, al := range p.rootAliases(root) {
 		refs := al.Referrers()
 		if refs == nil {
 			continue
@@ -966,9 +1034,9 @@ func (p *Prog) allocBases(a *ssa.Alloc) map[ssa.Value]bool {
 					}
 				}
 			case *ssa.FieldAddr:
-				// stored into field f of an enclosing local literal P: loads of P.f denote a
-				parent := p.allocOfBase(addr.X)
-				if parent == nil || parent == a {
+				// stored into field f of an enclosing local object P: loads of P.f denote the root
+				parent := p.rootOfBase(addr.X)
+				if parent == nil || parent == root {
 					continue
 				}
 				fname := fieldName(addr)
@@ -1000,24 +1068,33 @@ func (p *Prog) allocBases(a *ssa.Alloc) map[ssa.Value]bool {
 	return bases
 }
 
-// allocOfBase: the local allocation a base pointer value denotes (directly, via capture, or via a single-store cell).
-func (p *Prog) allocOfBase(v ssa.Value) *ssa.Alloc {
+// rootOfBase: the object root (local allocation or constructor-helper call) a base pointer value denotes.
+func (p *Prog) rootOfBase(v ssa.Value) ssa.Value {
 	switch x := v.(type) {
 	case *ssa.Alloc:
 		return x
+	case *ssa.Call:
+		if p.ctorCall(x) != nil {
+			return x
+		}
 	case *ssa.FreeVar:
 		for _, b := range p.freeVarBindings(x) {
-			if al := p.allocOfBase(b); al != nil {
-				return al
+			if r := p.rootOfBase(b); r != nil {
+				return r
 			}
 		}
 	case *ssa.UnOp:
 		if x.Op == token.MUL {
-			if cell := p.allocOfBase(x.X); cell != nil {
+			if cell, ok := p.rootOfBase(x.X).(*ssa.Alloc); ok && cell != nil {
 				st := p.cellStores(cell)
 				if len(st) == 1 {
-					if al, ok := st[0].Val.(*ssa.Alloc); ok {
-						return al
+					switch sv := st[0].Val.(type) {
+					case *ssa.Alloc:
+						return sv
+					case *ssa.Call:
+						if p.ctorCall(sv) != nil {
+							return sv
+						}
 					}
 				}
 			}
@@ -1026,9 +1103,21 @@ func (p *Prog) allocOfBase(v ssa.Value) *ssa.Alloc {
 	return nil
 }
 
-func (p *Prog) allocFieldStoresRaw(a *ssa.Alloc, name string) []*ssa.Store {
+// allocOfBase: like rootOfBase, for callers that only care about true local allocations.
+func (p *Prog) allocOfBase(v ssa.Value) *ssa.Alloc {
+	if a, ok := p.rootOfBase(v).(*ssa.Alloc); ok {
+		return a
+	}
+	return nil
+}
+
+func (p *Prog) allocFieldStoresRaw(root ssa.Value, name string) []*ssa.Store {
 	var out []*ssa.Store
-	for b := range p.allocBases(a) {
+	if ca := p.ctorCall(root); ca != nil {
+		// the helper's own stores come first
+		out = append(out, p.allocFieldStoresRaw(ca, name)...)
+	}
+	for b := range p.allocBases(root) {
 		refs := b.Referrers()
 		if refs == nil {
 			continue
@@ -1050,10 +1139,16 @@ func (p *Prog) allocFieldStoresRaw(a *ssa.Alloc, name string) []*ssa.Store {
 	return out
 }
 
-// allocFieldStores: stores to field `name` of the struct allocated at a, anywhere in the function nest.
-func (p *Prog) allocFieldStores(a *ssa.Alloc, name string) []*ssa.Store {
-	out := p.allocFieldStoresRaw(a, name)
-	sort.Slice(out, func(i, j int) bool { return out[i].Pos() < out[j].Pos() })
+// allocFieldStores: stores to field `name` of the object `root`, anywhere in the function nest (and, for a
+// constructor-helper call, inside the helper).
+func (p *Prog) allocFieldStores(root ssa.Value, name string) []*ssa.Store {
+	out := p.allocFieldStoresRaw(root, name)
+	sort.SliceStable(out, func(i, j int) bool {
+		if out[i].Parent() != out[j].Parent() {
+			return false
+		}
+		return out[i].Pos() < out[j].Pos()
+	})
 	return out
 }
 
